@@ -483,7 +483,7 @@ def enumerate_functions(tier, seed, shard, nshards):
         lab = label or calls[0]["fn"]
         pairs = [(calls[-1], calls[-2])] if tier == "quick" else [(calls[i], calls[i + 1]) for i in range(1, len(calls) - 1, 2)]
         for a, b in pairs:
-            yield {"calls": [a, b], "budget": 40 if tier == "quick" else 160, "axis": lab}
+            yield {"calls": [a, b], "budget": 40 if tier == "quick" else 100, "axis": lab}
         yield {"calls": [calls[-1], copy.deepcopy(calls[-1])], "budget": 24, "axis": lab, "shared": _has_caller_object(calls[-1])}
 
 
@@ -514,14 +514,14 @@ SUBCHECKS = [
 ]
 SUBCHECKS += [
     SubCheck("owned_schedules", check_schedules, strategy=_schedule_cases(60), nontrivial=lambda c: True, classes=_classes_sched,
-             quick=48, thorough=2400, shards_quick=8, shards_thorough=48, setup=_setup,
+             quick=48, thorough=1600, shards_quick=8, shards_thorough=48, setup=_setup,
              rule="2..3 calls (a family of one entry point sharing part of its arguments / two arbitrary calls / the same call twice) run in "
                   "one thread each under a schedule the harness owns (sys.monitoring LINE events of the library's files: a thread "
                   "loses the baton only where the plan says): alternation after every 1, 2, 3, 7 library lines, and every call pre-empted "
                   "once (and twice) at a stratified sample of its library lines - about 60 schedules per case; each result bit-identical "
                   "to a process that made no other call; constants, write barrier and arguments as in the other sub-checks"),
     SubCheck("owned_schedules_shared_arguments", check_schedules, strategy=_schedule_cases(24, shared_only=True), nontrivial=lambda c: True,
-             classes=_classes_sched, quick=96, thorough=4000, shards_quick=8, shards_thorough=48, setup=_setup,
+             classes=_classes_sched, quick=96, thorough=2400, shards_quick=8, shards_thorough=48, setup=_setup,
              rule="one call that is handed something the caller made (array, list, angle / coordinate / grid object, own parameter set or "
                   "ellipsoid) runs in two threads on the VERY SAME argument objects under about 24 owned schedules: a function that modifies "
                   "an argument and restores it before returning passes every sequential comparison and fails here"),
@@ -530,10 +530,10 @@ SUBCHECKS += [
              rule="enumeration along the catalogue's FUNCTION axis (each of the 21 module-level angle functions, 29 operators / methods x 5 angle "
                   "classes, vectorised functions x array layouts, coordinate-object operations, and every other entry point: about 290 entries): "
                   "per entry one pair of calls with different arguments and one call twice (on shared argument objects where the caller made "
-                  "any), arguments drawn by Hypothesis under the run's seed; 24-40 owned schedules each (160 in the thorough tier); after "
+                  "any), arguments drawn by Hypothesis under the run's seed; 24-40 owned schedules each (100 and four pairs per entry in the thorough tier); after "
                   "interleaved runs every call is run alone again and must still give its reference result"),
     SubCheck("owned_schedules_complete", check_schedules, strategy=_schedule_cases(1500), nontrivial=lambda c: True, classes=_classes_sched,
-             quick=18, thorough=960, shards_quick=6, shards_thorough=48, setup=_setup,
+             quick=18, thorough=480, shards_quick=6, shards_thorough=48, setup=_setup,
              rule="the same with up to 1500 schedules per case: EVERY single pre-emption point of every call whose solo run takes fewer "
                   "library lines than that (pre-emption-bounded enumeration, bound 1, complete per case at library-line granularity; "
                   "class 'every pre-emption point'), a stratified sample otherwise, plus a sample of double pre-emptions"),
